@@ -206,13 +206,8 @@ def r14_3(prog, out):
                 ok = False
                 for cid in creators:
                     ci = prog.info(cid)
-                    vac = set()
-                    for e in prog.effects(cid):
-                        if not e.chain and e.touches(submap) and e.kind == "handle" and e.lib.endswith("::entry"):
-                            sw_bb = ci.body.blocks[e.bb].term.target
-                            arms = dict(ci.body.blocks[sw_bb].term.arms) if ci.body.blocks[sw_bb].term.k == "switch" else {}
-                            if 1 in arms:
-                                vac |= ci.cfg.edge_dominated(sw_bb, arms[1])
+                    from mapstate import regions
+                    vac, _present = regions(prog, ci, submap)
                     reg = A.cell("PushRegistryState", "push_subscriptions")
                     for e in prog.effects(cid):
                         if e.touches(reg) and e.kind in L.INSERT_KINDS and any(cb == b.id for cb, _ in e.chain) and e.bb in vac:
